@@ -436,6 +436,12 @@ def predicates(ctx: Ctx) -> None:
             spec = {"E": [e - top for e in spec["E"]], "coords": spec["coords"],
                     "ts": [[u, v, (z if e == top else e - top), c] for u, v, e, c in spec["ts"]]}
             ts_above = all(e > max(spec["E"][u], spec["E"][v]) for u, v, e, _ in spec["ts"] if u != v)
+        if it % 6 == 5 and spec["ts"]:
+            # the zero of energy is arbitrary: the whole landscape far above it (every value positive, the offset larger
+            # than the landscape's own range)
+            off = rng.choice([16.0, 1024.0, 65536.0])
+            spec = {**spec, "E": [e + off for e in spec["E"]], "ts": [[u, v, e + off, c] for u, v, e, c in spec["ts"]]}
+            ts_above = all(e > max(spec["E"][u], spec["E"][v]) for u, v, e, _ in spec["ts"] if u != v)
         nn = len(spec["E"])
         if it % 4 == 1 and nn >= 2:
             # the same network read from files whose rows are not in index order (each row of min.data names its index)
